@@ -4,6 +4,7 @@ import SeqVerif.Model.C03Lids
 import SeqVerif.Model.C03Ids
 import SeqVerif.Model.C03Tokens
 import SeqVerif.Model.C03Frac
+import SeqVerif.Model.C03Search
 import Std.Data.HashMap
 /-!
 Driver for C03.  Lists: `,` inside a posting list / chunk, `;` between chunks / tokens, `|` between fields / blocks,
@@ -24,6 +25,8 @@ Driver for C03.  Lists: `,` inside a posting list / chunk, `;` between chunks / 
   tokens.table <rbs> <base> <fields>               -> ok entries=<field:startIndex:startTID:blockIndex:valCount:min:max;...> vals=<hex,...> | panic
   tokens.select <hint> <minVal> <maxVals>          -> ok <l> <r>
   frac.index <mids> <rids> <allDocs> <posting> <minLID> <maxLID>  -> ok ids=<mid:rid,...> index=<...> asc=<lids> desc=<lids>
+  frac.search <mids> <rids> <allDocs> <fields: xTOK=lid,lid;...|...> <idsBlock> <lidCap> <rbs> <query rpn: t<tid>,&,|,!> <from> <to> <rev> <limit> <interval>
+        -> ok total=<n> ids=<mid:rid,...> hist=<bucket:count,...>  (sealed and active model answers agree) | DIFF ... | panic
 -/
 open SV SV.Proto SV.C03
 
@@ -75,6 +78,45 @@ def fmtTBlock (b : TBlock) : String :=
 
 def fmtEntry (e : TEntry) : String :=
   s!"{e.field}:{e.startIndex}:{e.startTID}:{e.blockIndex}:{e.valCount}:{e.minVal.map fmtX |>.getD "-"}:{fmtX e.maxVal}"
+
+def parseATok (s : String) : Option ATok :=
+  match s.splitOn "=" with
+  | [v, p] => do pure { val := (← xhex? v), post := (← natList? p) }
+  | _ => none
+
+def parseAFields (s : String) : Option (List (List ATok)) :=
+  (splitList s "|").mapM fun f => (splitList f ";").mapM parseATok
+
+def parseRPN (s : String) : Option Q :=
+  let go := fun (st : Option (List Q)) (tok : String) => do
+    let st ← st
+    if tok.startsWith "t" then
+      pure (Q.leaf (← (tok.drop 1).toString.toNat?) :: st)
+    else match tok, st with
+      | "&", r :: l :: rest => pure (Q.and l r :: rest)
+      | "|", r :: l :: rest => pure (Q.or l r :: rest)
+      | "!", r :: n :: rest => pure (Q.nand n r :: rest)
+      | _, _ => none
+  match (s.splitOn ",").foldl go (some []) with
+  | some [q] => some q
+  | _ => none
+
+def histCounts : List Nat → List (Nat × Nat)
+  | [] => []
+  | b :: rest =>
+    let r := histCounts rest
+    if r.any (·.1 == b) then r.map (fun p => if p.1 == b then (p.1, p.2 + 1) else p) else (b, 1) :: r
+
+def insertSorted (p : Nat × Nat) : List (Nat × Nat) → List (Nat × Nat)
+  | [] => [p]
+  | q :: rest => if p.1 ≤ q.1 then p :: q :: rest else q :: insertSorted p rest
+
+def fmtAnswer (r : Except String Answer) : String :=
+  match r with
+  | .error e => s!"panic {e}"
+  | .ok a =>
+    let h := (histCounts a.hist).foldl (fun acc p => insertSorted p acc) []
+    s!"total={a.total} ids={fmtList fmtID a.ids} hist={fmtList (fun (p : Nat × Nat) => s!"{p.1}:{p.2}") h}"
 
 def step (line : String) : String :=
   match fields line with
@@ -186,6 +228,20 @@ def step (line : String) : String :=
       let a : Active := { mids := mids, rids := rids, allDocs := all, fields := [] }
       s!"ok ids={fmtList fmtID (sealedIDs a)} index={fmtNats a.index} asc={fmtNats (activeNode a post mn mx false)} desc={fmtNats (activeNode a post mn mx true)}"
     | _, _, _, _, _, _ => "bad-op"
+  | ["frac.search", mids, rids, all, fs, per, cap, rbs, q, fr, to, rev, limit, interval] =>
+    match natList? mids, natList? rids, natList? all, parseAFields fs, per.toNat?, cap.toNat?, rbs.toNat?, parseRPN q with
+    | some mids, some rids, some all, some fs, some per, some cap, some rbs, some q =>
+      match fr.toNat?, to.toNat?, bool? rev, limit.toNat?, interval.toNat? with
+      | some fr, some to, some rev, some limit, some interval =>
+        let a : Active := { mids := mids, rids := rids, allDocs := all, fields := fs }
+        match sealFrac per per cap rbs 1 (fun _ => 0) a with
+        | .error e => s!"panic {e}"
+        | .ok s =>
+          let x := fmtAnswer (search (sealedIndex s) q fr to rev limit interval)
+          let y := fmtAnswer (search (activeIndex a) q fr to rev limit interval)
+          if x = y then s!"ok {x}" else s!"DIFF sealed[{x}] active[{y}]"
+      | _, _, _, _, _ => "bad-op"
+    | _, _, _, _, _, _, _, _ => "bad-op"
   | _ => "bad-op"
 
 def main : IO Unit := SV.Proto.main step
